@@ -104,23 +104,21 @@ def oracle(h, r):
     return out
 
 
-def shrink(pool, h, key, budget=40):
-    """greedy removal of calls while a failure with the same key remains"""
+def shrink(pool, h, key, rounds=12):
+    """greedy removal of calls while a failure with the same key remains (one parallel batch per round)"""
     cur = h
-    while budget > 0:
-        changed = False
-        for i in range(len(cur['calls'])):
-            if budget <= 0:
-                break
-            cand = dict(cur, calls=cur['calls'][:i] + cur['calls'][i + 1:])
-            budget -= 1
-            r = pool.run([cand])[0]
-            if any(k == key for k, _, _ in oracle(cand, r)):
-                cur = cand
-                changed = True
-                break
-        if not changed:
+    for _ in range(rounds):
+        cands = [dict(cur, calls=cur['calls'][:i] + cur['calls'][i + 1:]) for i in range(len(cur['calls']))]
+        if not cands:
             break
+        nxt = None
+        for cand, r in zip(cands, pool.run(cands)):
+            if any(k == key for k, _, _ in oracle(cand, r)):
+                nxt = cand
+                break
+        if nxt is None:
+            break
+        cur = nxt
     return cur
 
 
@@ -250,33 +248,67 @@ def rand_history(rng, max_len=12, extra_abbrs=()):
 def pair_histories():
     """every ordered pair (call, probe) over a compact pool where everything shareable is shared"""
     css = []
-    for sn in (None, {'foo': 'margin:10'}, {'foo': 'padding:5 7'}, {'bad': 'margin:(('}):
-        for op in (None, {'stylesheet.intUnit': 'pt'}, {'stylesheet.floatUnit': 'rem'}):
+    for sn in (None, {'foo': 'margin:10'}, {'foo': 'padding:5 7.5'}):
+        for op in (None, {'stylesheet.intUnit': 'pt', 'stylesheet.floatUnit': 'rem'}):
             d = {'type': 'stylesheet', 'cache': 0}
             _put(d, 'snippets', sn)
             _put(d, 'options', op)
             css.append(d)
+    css.append({'type': 'stylesheet', 'cache': 0, 'snippets': {'bad': 'margin:(('}})
     css.append({'type': 'stylesheet', 'cache': 0, 'snippets': {'foo': 'margin:10'}, 'context': {'name': 'margin'}})
-    css.append({'type': 'stylesheet', 'cache': 0, 'syntax': 'sass', 'snippets': {'foo': 'line-height:1.5'}})
-    abbrs = ['foo', 'm10', 'fz1.5']
+    abbrs = ['foo', 'm10']
     out = []
     calls = [{'abbr': a, 'via': 'dict', 'd': i} for i in range(len(css)) for a in abbrs]
     for c1 in calls:
         for c2 in calls:
-            if c1['d'] != c2['d'] or c1['abbr'] == c2['abbr']:
+            if c1['d'] != c2['d']:
                 out.append({'dicts': css, 'ncaches': 1, 'objs': [], 'calls': [c1], 'probe': c2})
     mk = []
-    for sn in (None, {'bad': 'a)', 'foo': 'div.x>span{hi}'}):
-        for tx in (None, ['x', 'y'], 'hello'):
-            for op in (None, {'bem.enabled': True}):
-                d = {}
-                _put(d, 'snippets', sn)
-                _put(d, 'text', tx)
-                _put(d, 'options', op)
-                mk.append(d)
+    for tx in (None, ['x', 'y']):
+        for op in (None, {'bem.enabled': True}):
+            d = {'snippets': {'bad': 'a)', 'foo': 'div.x>span{hi}'}}
+            _put(d, 'text', tx)
+            _put(d, 'options', op)
+            mk.append(d)
     calls = [{'abbr': a, 'via': v, 'd': i} for i in range(len(mk)) for a in ('bad', 'p*', '.b>._e+foo') for v in ('dict', 'obj')]
     for c1 in calls:
         for c2 in calls:
             if c1['d'] == c2['d']:
                 out.append({'dicts': mk, 'ncaches': 0, 'objs': list(range(len(mk))), 'calls': [c1], 'probe': c2})
+    return out
+
+
+def search_candidates(h, upto):
+    """SEARCH: the model and the implementation disagree about the state after call `upto` of `h`, but no call of
+    `h` shows a wrong result.  Probes that would expose a corrupted state: after the same prefix, every
+    configuration of the history and its twins with other units / other snippets / with text, with the
+    abbreviations of the history and a few fixed ones."""
+    prefix = h['calls'][:upto + 1] if upto < len(h['calls']) else list(h['calls'])
+    dicts = [json.loads(json.dumps(d)) for d in h['dicts']]
+    base_n = len(dicts)
+    for i in range(base_n):
+        d = dicts[i]
+        if d.get('type') == 'stylesheet':
+            for op in ({'stylesheet.intUnit': 'pt', 'stylesheet.floatUnit': 'rem'}, {'stylesheet.intUnit': 'px'}):
+                t = json.loads(json.dumps(d))
+                t['options'] = dict(t.get('options') or {}, **op)
+                dicts.append(t)
+            for sn in (None, {'foo': 'margin:10'}):
+                t = json.loads(json.dumps(d))
+                t.pop('snippets', None)
+                _put(t, 'snippets', sn)
+                dicts.append(t)
+    abbrs = []
+    for c in list(h['calls']) + [h['probe']]:
+        if c['abbr'] not in abbrs:
+            abbrs.append(c['abbr'])
+    out = []
+    for i, d in enumerate(dicts):
+        pool = abbrs + (['foo', 'm10', 'p1.5'] if d.get('type') == 'stylesheet' else ['p*', 'div', '.b>._e'])
+        for a in pool[:8]:
+            out.append({'dicts': dicts, 'ncaches': h.get('ncaches', 0), 'objs': h.get('objs', []), 'calls': prefix,
+                        'probe': {'abbr': a, 'via': 'dict', 'd': i}})
+            if i < base_n and i in h.get('objs', []):
+                out.append({'dicts': dicts, 'ncaches': h.get('ncaches', 0), 'objs': h.get('objs', []), 'calls': prefix,
+                            'probe': {'abbr': a, 'via': 'obj', 'd': h['objs'].index(i)}})
     return out
